@@ -23,10 +23,10 @@ P0  == Pb[1]
 Geopotential(z) == FDiv(FMul(z, RE), FAdd(z, RE))
 Geometric(h)    == FDiv(FMul(RE, h), FSub(RE, h))
 
-(* layer containing geopotential height h: the last base at or below it *)
-LayerOfH(h) == CHOOSE k \in 1..8 : FLe(Hb[k], h) /\ (k = 8 \/ FLt(h, Hb[k + 1]))
+(* layer containing geopotential height h: the last base at or below it (the lowest layer is extended downward) *)
+LayerOfH(h) == IF FLt(h, Hb[1]) THEN 1 ELSE CHOOSE k \in 1..8 : FLe(Hb[k], h) /\ (k = 8 \/ FLt(h, Hb[k + 1]))
 (* layer containing pressure P: the last base pressure at or above it *)
-LayerOfP(P) == CHOOSE k \in 1..8 : FGe(Pb[k], P) /\ (k = 8 \/ FLt(Pb[k + 1], P))
+LayerOfP(P) == IF FGt(P, Pb[1]) THEN 1 ELSE CHOOSE k \in 1..8 : FGe(Pb[k], P) /\ (k = 8 \/ FLt(Pb[k + 1], P))
 
 PressureAtH(h) ==
     LET k == LayerOfH(h)  dh == FSub(h, Hb[k]) IN
